@@ -1,6 +1,6 @@
 (* val -> val front end of the multi-node model.
    case = (nodes bs ops)      nodes: list of byte strings, bs: block size of the node reader
-     op: (0) read one block (ahead(1) + consume(avail)) | (2 off whence) seek
+     op: (0) read one block (ahead(1) + consume(avail)) | (1 n) consume n | (2 off whence) seek
    result = list of (0 block position) | (2 result position) *)
 From Coq Require Import List ZArith NArith Bool.
 From LA Require Import Base.Val IO.MultiNodeDefs.
@@ -9,6 +9,7 @@ Import ListNotations.
 Definition mop_of (v : val) : mop :=
   match lval v with
   | VI 0%Z :: _ => MRead
+  | VI 1%Z :: n :: _ => MConsume (zval n)
   | _ :: o :: w :: _ => MSeek (zval o) (zval w)
   | _ => MRead
   end.
@@ -16,6 +17,7 @@ Definition val_of_mout (o : mout) : val :=
   match o with
   | MBlk b p => VL [VI 0; VB b; VI p]
   | MPos r p => VL [VI 2; VI r; VI p]
+  | MCons r p => VL [VI 1; VI r; VI p]
   end.
 Definition run (v : val) : val :=
   let l := lval v in
